@@ -61,10 +61,29 @@ class _Ren(ast.NodeTransformer):
         return n
 
 
-def shape(fn: ast.AST) -> tuple[str, list[str]]:
+def param_names(fn: ast.AST) -> list[str]:
+    a = fn.args  # type: ignore[attr-defined]
+    return [x.arg for x in a.posonlyargs + a.args + a.kwonlyargs] + ([a.vararg.arg] if a.vararg else []) + ([a.kwarg.arg] if a.kwarg else [])
+
+
+class _RenArgs(ast.NodeTransformer):
+    def __init__(self, mapping: dict) -> None:
+        self.mapping = mapping
+
+    def visit_arg(self, n: ast.arg):
+        if n.arg in self.mapping:
+            n.arg = self.mapping[n.arg]
+        return n
+
+
+def shape(fn: ast.AST, with_params: bool = False):
     names = local_names(fn)
+    params = param_names(fn)
     mapping = {n: f"L{i}" for i, n in enumerate(names)}
+    mapping.update({n: f"A{i}" for i, n in enumerate(params)})
     body = copy.deepcopy(fn)
+    body.name = "f"  # type: ignore[attr-defined]  # the function's own name is not part of its shape
+    body = _RenArgs(mapping).visit(body)
     # the docstring and annotations are not part of the shape
     if body.body and isinstance(body.body[0], ast.Expr) and isinstance(body.body[0].value, ast.Constant) and isinstance(body.body[0].value.value, str):  # type: ignore[attr-defined]
         body.body = body.body[1:] or [ast.Pass()]  # type: ignore[attr-defined]
@@ -77,7 +96,8 @@ def shape(fn: ast.AST) -> tuple[str, list[str]]:
     body.returns = None  # type: ignore[attr-defined]
     body.decorator_list = []  # type: ignore[attr-defined]
     txt = ast.dump(body, annotate_fields=False, include_attributes=False)
-    return hashlib.sha1(txt.encode()).hexdigest()[:20], names
+    h = hashlib.sha1(txt.encode()).hexdigest()[:20]
+    return (h, names, params) if with_params else (h, names)
 
 
 def write_known(model) -> int:
@@ -86,9 +106,8 @@ def write_known(model) -> int:
         node = f.__dict__.get("raw_node", f.node)
         parts = q.split(".")
         key = ".".join(parts[-2:])
-        h, names = shape(node)
-        if names:
-            out[key] = [h, names]
+        h, names, params = shape(node, with_params=True)
+        out[key] = [h, names, params]
     with open(PATH, "w", encoding="utf-8") as fh:
         json.dump(out, fh, indent=0, sort_keys=True)
         fh.write("\n")
@@ -96,26 +115,138 @@ def write_known(model) -> int:
 
 
 def restore_names(model) -> dict:
-    """Undo pure local renames; returns {qname: {new: old}}."""
+    """Undo pure renames of locals, parameters and whole functions; returns {qname: {new: old}}.
+
+    * a function whose body has the confirmed shape but other local / parameter names gets the old names back (keyword arguments at
+      its call sites are translated along);
+    * a function of the confirmed tree that is missing from its class / module while a *new* function with exactly its shape has
+      appeared there is that function under a new name: the definition and the calls `x.<new>(..)` / `<new>(..)` are renamed back."""
     if not os.path.exists(PATH):
         return {}
     with open(PATH, encoding="utf-8") as fh:
         known = json.load(fh)
     done = {}
+    kw_maps: dict = {}  # function name -> [param mapping new->old of every definition with that name]
+
+    def key_of(q: str) -> str:
+        return ".".join(q.split(".")[-2:])
+
+    # --- renamed functions
+    present = {key_of(q) for q in model.functions}
+    missing = [k for k in known if k not in present]
+    fn_ren: dict = {}
+    if missing:
+        by_owner: dict = {}
+        for q, f in model.functions.items():
+            if key_of(q) in known:
+                continue
+            owner = key_of(q).split(".")[0]
+            by_owner.setdefault(owner, []).append(f)
+        for k in missing:
+            owner, _, old = k.partition(".")
+            cands = [f for f in by_owner.get(owner, []) if shape(f.node)[0] == known[k][0] and len(known[k]) > 2
+                     and len(param_names(f.node)) == len(known[k][2])]
+            if len(cands) != 1:
+                continue
+            f = cands[0]
+            if f.cls is not None and old in f.cls.methods:
+                continue
+            others = [g for g in model.functions.values() if g.name == f.name and g is not f]
+            if others:
+                continue  # the new name is not unique: leave it
+            fn_ren[f.name] = old
+            done[f.qname] = {f.name: old}
+            new_q = f.qname[: -len(f.name)] + old
+            del model.functions[f.qname]
+            if f.cls is not None:
+                del f.cls.methods[f.name]
+                f.cls.methods[old] = f
+            else:
+                funcs = getattr(f.module, "functions", None)
+                if isinstance(funcs, dict) and f.name in funcs:
+                    del funcs[f.name]
+                    funcs[old] = f
+            f.__dict__.setdefault("raw_node", f.node)
+            f.node = copy.deepcopy(f.node)
+            f.node.name = old
+            f.name = old
+            f.qname = new_q
+            model.functions[new_q] = f
+    # --- renamed locals / parameters
     for q, f in model.functions.items():
-        parts = q.split(".")
-        key = ".".join(parts[-2:])
+        key = key_of(q)
         if key not in known:
             continue
-        h0, names0 = known[key]
-        h, names = shape(f.node)
-        if h == h0 and names != names0 and len(names) == len(names0):
-            mapping = {n: o for n, o in zip(names, names0) if n != o}
-            # a two-step rename keeps swaps (a<->b) correct
-            tmp = {n: f"__ren{i}__" for i, n in enumerate(mapping)}
-            node = _Ren(tmp).visit(copy.deepcopy(f.node))
-            node = _Ren({tmp[n]: o for n, o in mapping.items()}).visit(node)
+        ent = known[key]
+        h0, names0 = ent[0], ent[1]
+        params0 = ent[2] if len(ent) > 2 else None
+        h, names, params = shape(f.node, with_params=True)
+        if h != h0 or len(names) != len(names0):
+            continue
+        mapping = {n: o for n, o in zip(names, names0) if n != o}
+        pmap = {}
+        if params0 is not None and len(params0) == len(params):
+            pmap = {n: o for n, o in zip(params, params0) if n != o}
+        if not mapping and not pmap:
+            continue
+        full = dict(mapping)
+        full.update(pmap)
+        # a two-step rename keeps swaps (a<->b) correct
+        tmp = {n: f"__ren{i}__" for i, n in enumerate(full)}
+        node = copy.deepcopy(f.node)
+        node = _RenArgs(dict(tmp)).visit(_Ren(tmp).visit(node))
+        back = {tmp[n]: o for n, o in full.items()}
+        node = _RenArgs(dict(back)).visit(_Ren(back).visit(node))
+        f.__dict__.setdefault("raw_node", f.node)
+        f.node = node
+        done.setdefault(q, {}).update(full)
+        if pmap:
+            kw_maps.setdefault(f.name if f.name != "__init__" or f.cls is None else f.cls.name, []).append((f, pmap))
+    # --- call sites: renamed functions and keyword names of renamed parameters
+    if fn_ren or kw_maps:
+        defs_by_name: dict = {}
+        for g in model.functions.values():
+            defs_by_name.setdefault(g.name if g.name != "__init__" or g.cls is None else g.cls.name, []).append(g)
+        for f in model.functions.values():
+            changed = False
+            node = None
+            for n in ast.walk(f.node):
+                hit = False
+                if isinstance(n, ast.Attribute) and n.attr in fn_ren:
+                    hit = True
+                elif isinstance(n, ast.Name) and n.id in fn_ren:
+                    hit = True
+                elif isinstance(n, ast.Call) and n.keywords:
+                    fn = n.func.value if isinstance(n.func, ast.Subscript) else n.func
+                    nm = fn.attr if isinstance(fn, ast.Attribute) else fn.id if isinstance(fn, ast.Name) else None
+                    if nm in kw_maps:
+                        hit = True
+                if hit:
+                    changed = True
+                    break
+            if not changed:
+                continue
+            node = copy.deepcopy(f.node)
+            for n in ast.walk(node):
+                if isinstance(n, ast.Attribute) and n.attr in fn_ren:
+                    n.attr = fn_ren[n.attr]
+                elif isinstance(n, ast.Name) and n.id in fn_ren:
+                    n.id = fn_ren[n.id]
+                if isinstance(n, ast.Call) and n.keywords:
+                    fn = n.func.value if isinstance(n.func, ast.Subscript) else n.func
+                    nm = fn.attr if isinstance(fn, ast.Attribute) else fn.id if isinstance(fn, ast.Name) else None
+                    if nm in kw_maps:
+                        maps = kw_maps[nm]
+                        # every definition of that name that was renamed must agree on the keyword; definitions that were not
+                        # renamed must not own the new keyword themselves
+                        for kw in n.keywords:
+                            olds = {pm.get(kw.arg) for _g, pm in maps}
+                            if kw.arg is None or len(olds) != 1 or None in olds:
+                                continue
+                            renamed_defs = {id(g) for g, _pm in maps}
+                            if any(kw.arg in g.params for g in defs_by_name.get(nm, []) if id(g) not in renamed_defs):
+                                continue
+                            kw.arg = olds.pop()
             f.__dict__.setdefault("raw_node", f.node)
             f.node = node
-            done[q] = mapping
     return done
